@@ -471,6 +471,8 @@ func sweepRunCase(c Case, phase *atomic.Value) Result {
 		if r.nontriv {
 			r.tags["option-length-extreme"] = true
 		}
+	case "clcut":
+		r.tags["consistent-length-cut"] = true
 	}
 	var tags []string
 	for t := range r.tags {
